@@ -83,7 +83,13 @@ pub fn prove_body(
                 }
                 BodyPredicate::Negated(atom) => {
                     let bound = substitute_atom(atom, bindings);
-                    let matches = find_matching_tuples(&atom.relation, &bound, ctx.base_data);
+                    let mut matches = find_matching_tuples(&atom.relation, &bound, ctx.base_data);
+                    // A negated atom over a rule-defined relation fails when a derived tuple matches
+                    if matches.is_empty() && ctx.is_derived(&atom.relation) {
+                        if let Some(derived_data) = ctx.derived_data {
+                            matches = find_matching_tuples(&atom.relation, &bound, derived_data);
+                        }
+                    }
                     if matches.is_empty() {
                         let pattern_str = format_bound_terms(&bound);
                         let node_id = builder.insert_unique(ProofNode {
